@@ -290,8 +290,8 @@ pub fn c05_gen(doc: &Doc) -> XGen {
 }
 
 pub fn c05(ctx: &mut Ctx) {
-    let ndocs: u64 = if ctx.thorough { 400_000 } else { 30_000 };
-    let per_doc = if ctx.thorough { 60 } else { 30 };
+    let ndocs: u64 = if ctx.thorough { 1_500_000 } else { 100_000 };
+    let per_doc = if ctx.thorough { 40 } else { 30 };
     for d in 0..ndocs {
         if !ctx.mine(d) { continue; }
         let mut r = ctx.rng(d);
@@ -448,7 +448,7 @@ pub fn c06(ctx: &mut Ctx) {
         }
         return;
     }
-    let ndocs: u64 = if ctx.thorough { 150_000 } else { 10_000 };
+    let ndocs: u64 = if ctx.thorough { 400_000 } else { 30_000 };
     let per_doc = if ctx.thorough { 80 } else { 60 };
     let specials = c06_special_docs();
     for d in 0..ndocs {
@@ -560,8 +560,8 @@ fn c07_gen(doc: &Doc) -> XGen { let mut g = c05_gen(doc); g.allow_pi_literal = t
 fn nodes_of(o: &Outcome) -> Option<&Vec<String>> { if let Outcome::Nodes(v) = o { Some(v) } else { None } }
 
 pub fn c07(ctx: &mut Ctx) {
-    let ndocs: u64 = if ctx.thorough { 300_000 } else { 20_000 };
-    let per_doc = if ctx.thorough { 40 } else { 20 };
+    let ndocs: u64 = if ctx.thorough { 1_000_000 } else { 60_000 };
+    let per_doc = if ctx.thorough { 30 } else { 20 };
     for d in 0..ndocs {
         if !ctx.mine(d) { continue; }
         let mut r = ctx.rng(d);
@@ -681,7 +681,7 @@ const NT_DOC: &str = "<?p top?><!--top--><r>x<a i='1'>x<!--c--><?p d?></a><a>y</
 
 pub fn c08(ctx: &mut Ctx) {
     // (a) random ASTs in several spellings
-    let ndocs: u64 = if ctx.thorough { 300_000 } else { 20_000 };
+    let ndocs: u64 = if ctx.thorough { 1_500_000 } else { 100_000 };
     let per_doc = if ctx.thorough { 30 } else { 20 };
     for d in 0..ndocs {
         if !ctx.mine(d) { continue; }
@@ -974,7 +974,7 @@ fn c10_edits(ctx: &mut Ctx, d: u64, r: &mut Rng, case: &XCase) {
 pub const OPT_NS: model::DumpOpt = model::DumpOpt { merged: true, ns: true, prolog: false, specified: false, reflevel: false };
 
 pub fn c10(ctx: &mut Ctx) {
-    let ndocs: u64 = if ctx.thorough { 400_000 } else { 30_000 };
+    let ndocs: u64 = if ctx.thorough { 1_500_000 } else { 100_000 };
     let per_doc = if ctx.thorough { 24 } else { 12 };
     for d in 0..ndocs {
         if !ctx.mine(d) { continue; }
@@ -1107,7 +1107,7 @@ fn order_snapshot(s: &Subject) -> Vec<(String, usize)> {
 }
 
 pub fn c19(ctx: &mut Ctx) {
-    let ndocs: u64 = if ctx.thorough { 400_000 } else { 30_000 };
+    let ndocs: u64 = if ctx.thorough { 1_500_000 } else { 100_000 };
     for d in 0..ndocs {
         if !ctx.mine(d) { continue; }
         let mut r = ctx.rng(d);
